@@ -244,6 +244,9 @@ func genCase(t *rapid.T, thorough bool) Case {
 		c.Layout = docs.Layout{BreakAfterComma: rapid.Bool().Draw(t, "brk"), BlankLines: rapid.IntRange(0, 2).Draw(t, "blank"), Trailing: rapid.Bool().Draw(t, "trail"),
 			CRLF: rapid.IntRange(0, 3).Draw(t, "crlf") == 0, NoFinalNewline: rapid.Bool().Draw(t, "nofinal")}
 		c.Layout.AfterTips = c.Layout.BreakAfterComma && rapid.IntRange(0, 2).Draw(t, "aftertips") == 0
+		if rapid.IntRange(0, 3).Draw(t, "sameline") == 0 {
+			c.Layout.SameLine = rapid.IntRange(1, 2).Draw(t, "samelinesep") // two trees per line
+		}
 		c.Layout.ENum = rapid.IntRange(0, 5).Draw(t, "enum") == 0
 		if c.Layout.NoFinalNewline && rapid.IntRange(0, 3).Draw(t, "padlast") == 1 {
 			c.Layout.PadLast = 4096 // the last line, without end of line, fills the reader's buffer exactly
@@ -585,6 +588,12 @@ func layoutTexts(parts []string, l docs.Layout) string {
 			b.WriteString(" \t ")
 		}
 		last := i == len(parts)-1
+		if l.SameLine > 0 && i%2 == 0 && !last {
+			if l.SameLine == 2 {
+				b.WriteString(" ")
+			}
+			continue
+		}
 		if !(last && l.NoFinalNewline) {
 			b.WriteString(nl)
 		}
@@ -603,7 +612,7 @@ func layoutTexts(parts []string, l docs.Layout) string {
 func TestC13Formats(t *testing.T) {
 	h.Run(t, h.Spec[Case]{
 		Property: "C13", Name: "formats", Quick: 16000, Thorough: 640000,
-		Rule: "lists of 1..5 trees (2..9 tips, 5% up to 30/120) with labels legal in all three formats (graphic non-blank runes without ()[],:;=<>&'\", Nexus keywords mapped to k_, numeric tip labels, in one list in six the tips are named 0..n-1 or 1..n in an order unrelated to the tree, unique names over tips and inner nodes), lengths/supports/p-values/inner names present or not; chains (in a quarter of the cases some of the trees were indexed and then edited in memory by 1-3 operations - re-root, collapse, resolve, NNI, rotate, copy ... - before they are converted, the model read back from the object being what must come back) newick->nexus(+-translate)->newick, Tree.Nexus(), newick->phyloxml->newick, nexus->phyloxml->nexus through gotree's writers and readers compared with the original model (shape, child order, names, lengths, supports); multi-Newick streams in free layout (line breaks after commas, blank and blank-only lines, trailing blanks, CRLF, no final newline, a last line of exactly 4096 / 8192 bytes without end of line, one tip per line with the line end right after the tip name, numbers written as 1.5E-01) with an optional syntactically broken member: ids consecutive in file order, every tree equal to its record, error record then nothing; first-tree reader vs first record of the multi-tree reader for the four formats on documents written independently or by gotree. Non-trivial = >= 2 trees or an inner name/support, and a layout feature / translate table / format other than plain Newick",
+		Rule: "lists of 1..5 trees (2..9 tips, 5% up to 30/120) with labels legal in all three formats (graphic non-blank runes without ()[],:;=<>&'\", Nexus keywords mapped to k_, numeric tip labels, in one list in six the tips are named 0..n-1 or 1..n in an order unrelated to the tree, unique names over tips and inner nodes), lengths/supports/p-values/inner names present or not; chains (in a quarter of the cases some of the trees were indexed and then edited in memory by 1-3 operations - re-root, collapse, resolve, NNI, rotate, copy ... - before they are converted, the model read back from the object being what must come back) newick->nexus(+-translate)->newick, Tree.Nexus(), newick->phyloxml->newick, nexus->phyloxml->nexus through gotree's writers and readers compared with the original model (shape, child order, names, lengths, supports); multi-Newick streams in free layout (line breaks after commas, blank and blank-only lines, trailing blanks, CRLF, no final newline, a last line of exactly 4096 / 8192 bytes without end of line, one tip per line with the line end right after the tip name, numbers written as 1.5E-01, two trees on one line) with an optional syntactically broken member: ids consecutive in file order, every tree equal to its record, error record then nothing; first-tree reader vs first record of the multi-tree reader for the four formats on documents written independently or by gotree. Non-trivial = >= 2 trees or an inner name/support, and a layout feature / translate table / format other than plain Newick",
 		Gen: genCase, Check: check,
 		Classify: func(c Case) (bool, []string) {
 			l := []string{"chain:" + c.Chain}
